@@ -178,9 +178,9 @@ static sqf::runtime::runtime::result execute_do(sqf::runtime::runtime& runtime, 
         auto instruction = frame.current();
         if (runtime.configuration().max_runtime != std::chrono::milliseconds::zero() &&
 #ifdef SQFVM_RUNTIME_VERIF
-            runtime.configuration().max_runtime + runtime.runtime_timestamp() < sqf::runtime::verif::now())
+            runtime.configuration().max_runtime + runtime.run_timestamp() < sqf::runtime::verif::now())
 #else
-            runtime.configuration().max_runtime + runtime.runtime_timestamp() < std::chrono::system_clock::now())
+            runtime.configuration().max_runtime + runtime.run_timestamp() < std::chrono::system_clock::now())
 #endif
         {
 #ifdef DF__SQF_RUNTIME__ASSEMBLY_DEBUG_ON_EXECUTE
@@ -389,6 +389,8 @@ sqf::runtime::runtime::result sqf::runtime::runtime::execute(sqf::runtime::runti
     case action::start:
         if (m_run_atomic.compare_exchange_weak(expected, true, std::memory_order::memory_order_seq_cst, std::memory_order::memory_order_seq_cst))
         {
+            // The max_runtime budget is per run
+            run_timestamp_reset();
 #ifdef SQFVM_RUNTIME_VERIF
             sqf::runtime::verif::at_sync(sqf::runtime::verif::sync::exec_acquired, *this);
 #endif
